@@ -95,7 +95,7 @@ def random_ops(rng, n, bad=True):
     ops = []
     copied = False
     for _ in range(n):
-        op = rng.choice(ALL_OPS + ['set', 'set', 'updatekw', 'eqx', 'xeq'] + (['setbad', 'updatebad'] if bad else []))
+        op = rng.choice(ALL_OPS + ['set', 'set', 'updatekw', 'updatekwonly', 'updateitems', 'update0', 'eqx', 'xeq'] + (['setbad', 'updatebad'] if bad else []))
         locs = [1, 2] + ([3] if copied else [])
         o = {'op': op, 'loc': rng.choice(locs)}
         k = rng.randint(1, dd.NK)
@@ -113,7 +113,7 @@ def random_ops(rng, n, bad=True):
         elif op == 'updatebad':
             k2 = rng.choice([x for x in range(1, dd.NK + 1) if x != k])
             o.update(k=k, v=10 * k + rng.randint(1, 3), k2=k2)
-        elif op in ('update', 'updatekw'):
+        elif op in ('update', 'updatekw', 'updatekwonly', 'updateitems'):
             k2 = rng.choice([x for x in range(1, dd.NK + 1) if x != k])
             o.update(k=k, v=10 * k + rng.randint(1, 3), k2=k2, v2=10 * k2 + rng.randint(1, 3))
         elif op == 'copy':
@@ -140,7 +140,9 @@ PROBES = [
     [dict(op='set', loc=1, k=1, v=11), dict(op='set', loc=1, k=3, v=32), dict(op='set', loc=2, k=1, v=11),
      dict(op='set', loc=2, k=4, v=42), dict(op='eq', loc=1, o=2), dict(op='ne', loc=1, o=2), dict(op='eqx', loc=1, o=2),
      dict(op='updatebad', loc=1, k=2, v=21, k2=3), dict(op='items', loc=1), dict(op='len', loc=1),
-     dict(op='update', loc=1, k=2, v=22, k2=3, v2=31), dict(op='items', loc=1), dict(op='keys', loc=1)],
+     dict(op='update', loc=1, k=2, v=22, k2=3, v2=31), dict(op='items', loc=1), dict(op='keys', loc=1),
+     dict(op='update0', loc=1), dict(op='updatekwonly', loc=1, k=1, v=12, k2=4, v2=41), dict(op='updateitems', loc=2, k=2, v=21, k2=3, v2=33),
+     dict(op='items', loc=1), dict(op='items', loc=2)],
 ]
 
 
@@ -148,8 +150,8 @@ def usable_ops(ops, backend, keyset, valset=None):
     """drop operations a configuration cannot express (keyword update needs str keys; cached objects have dict.copy)"""
     out = []
     for o in ops:
-        if o['op'] == 'updatekw' and keyset not in ('str', 'alias-dash', 'dash', 'prefixy', 'prefixy-id'):
-            o = dict(o, op='update')
+        if o['op'] in ('updatekw', 'updatekwonly') and keyset not in ('str', 'alias-dash', 'dash', 'prefixy', 'prefixy-id'):
+            o = dict(o, op='update')       # (keyword arguments need string keys)
         if o['op'] == 'copy' and backend.endswith('+cache'):
             continue
         if o.get('loc') == 3 and backend.endswith('+cache'):
@@ -206,7 +208,7 @@ def _dict_would(c, e):
     elif op in ('popkeys', 'popkeysd'):
         for k in e['ks']:
             m[k - 1] = 0
-    elif op in ('update', 'updatekw'):
+    elif op in ('update', 'updatekw', 'updatekwonly', 'updateitems'):
         m[e['k'] - 1] = e['v']
         m[e['k2'] - 1] = e['v2']
     elif op == 'updatebad':
